@@ -244,9 +244,10 @@ impl UsesTypeParams for syn::TypeParamBound {
         match *self {
             syn::TypeParamBound::Trait(ref v) => v.uses_type_params(options, type_set),
             syn::TypeParamBound::Lifetime(_) => Default::default(),
-            // non-exhaustive enum
-            // TODO: replace panic with failible function
-            _ => panic!("Unknown syn::TypeParamBound: {:?}", self),
+            // non-exhaustive enum: bounds this analysis does not know (`use<..>` precise
+            // capturing, verbatim tokens) can appear in types that parse, such as `impl Trait`
+            // in a field; they are taken to use nothing rather than aborting the derive.
+            _ => Default::default(),
         }
     }
 }
